@@ -56,15 +56,15 @@ def allZip : List Role → List Par → (Role → Par → Bool) → Bool
   | _, _, _ => false
 
 /-- every noise argument of `g` belongs to the qubit of the slot its role names -/
-def Own (q0 q1 c t : Nat) (g : GateCall) : Bool := allZip (roles g.method) g.pars (ownPar q0 q1 c t)
+def Own {Φ : Type} (q0 q1 c t : Nat) (g : GateCall Φ) : Bool := allZip (roles g.method) g.pars (ownPar q0 q1 c t)
 
 /-! ## two-qubit methods of the circuit classes: own parameters, own phases -/
 
 /-- `CNOT(i, k, …)` with the parameters the simulator passes for `cx c t` (control at row `i`, target at row `k`):
 forward, the control is in slot 0; reversed, the target is in slot 0 — and in both cases each slot receives its
 own qubit's values -/
-theorem cnot_call_own (phi : List Int) (i k c t : Nat) (r : TwoQ)
-    (h : twoQCNOT phi i k (twoQubitPars c t) = .ok r) :
+theorem cnot_call_own {Φ : Type} (P : PhaseOps Φ) (phi : List Φ) (i k c t : Nat) (r : TwoQ Φ)
+    (h : twoQCNOT P phi i k (twoQubitPars c t) = .ok r) :
     (i < k → Own c t c t r.call = true ∧ r.call.method = "CNOT") ∧
     (¬ i < k → Own t c c t r.call = true ∧ r.call.method = "CNOT_inv") := by
   unfold twoQCNOT at h
@@ -78,7 +78,7 @@ theorem cnot_call_own (phi : List Int) (i k c t : Nat) (r : TwoQ)
       constructor
       · intro hik
         simp only [hik, if_true] at h
-        cases h3 : setAt phi i (a - halfPi) with
+        cases h3 : setAt phi i (P.add a (P.neg P.halfPi)) with
         | error e => simp [h3] at h
         | ok p =>
           simp [h3, pure, Except.pure] at h
@@ -86,7 +86,7 @@ theorem cnot_call_own (phi : List Int) (i k c t : Nat) (r : TwoQ)
           simp [Own, roles, twoQubitPars, allZip, ownPar]
       · intro hik
         simp only [hik, if_false] at h
-        cases h3 : setAt phi i (a + halfPi + 2 * halfPi) with
+        cases h3 : setAt phi i (P.add (P.add a P.halfPi) (P.add P.halfPi P.halfPi)) with
         | error e => simp [h3] at h
         | ok p1 =>
           simp only [h3] at h
@@ -94,7 +94,7 @@ theorem cnot_call_own (phi : List Int) (i k c t : Nat) (r : TwoQ)
           | error e => simp [h4] at h
           | ok pk =>
             simp only [h4] at h
-            cases h5 : setAt p1 k (pk + halfPi) with
+            cases h5 : setAt p1 k (P.add pk P.halfPi) with
             | error e => simp [h5] at h
             | ok p2 =>
               simp [h5, pure, Except.pure] at h
@@ -103,7 +103,7 @@ theorem cnot_call_own (phi : List Int) (i k c t : Nat) (r : TwoQ)
 
 /-- `ECR(i, k, …)`: forward as `CNOT`; the reversed gate takes its arguments in slot order, so the lower row
 (the target) is slot 0 and receives the target's values -/
-theorem ecr_call_own (phi : List Int) (i k c t : Nat) (r : TwoQ)
+theorem ecr_call_own {Φ : Type} (phi : List Φ) (i k c t : Nat) (r : TwoQ Φ)
     (h : twoQECR phi i k (twoQubitPars c t) = .ok r) :
     (i < k → Own c t c t r.call = true ∧ r.call.method = "ECR") ∧
     (¬ i < k → Own t c c t r.call = true ∧ r.call.method = "ECR_inv") := by
@@ -127,9 +127,9 @@ theorem ecr_call_own (phi : List Int) (i k c t : Nat) (r : TwoQ)
 
 /-- phase arguments: each is the *current* phase of the qubit in the slot `phaseRoles` names
 (slot 0 = lower row) -/
-theorem two_qubit_phase_args (phi : List Int) (i k : Nat) (pars : List Par) (a b : Int)
+theorem two_qubit_phase_args {Φ : Type} (P : PhaseOps Φ) (phi : List Φ) (i k : Nat) (pars : List Par) (a b : Φ)
     (hi : getAt phi i = .ok a) (hk : getAt phi k = .ok b) :
-    (∀ r, twoQCNOT phi i k pars = .ok r → r.call.phases = [a, b]) ∧
+    (∀ r, twoQCNOT P phi i k pars = .ok r → r.call.phases = [a, b]) ∧
     (∀ r, twoQECR phi i k pars = .ok r → r.call.phases = if i < k then [a, b] else [b, a]) := by
   constructor
   · intro r h
@@ -137,11 +137,11 @@ theorem two_qubit_phase_args (phi : List Int) (i k : Nat) (pars : List Par) (a b
     simp only [hi, hk, bind, Except.bind] at h
     by_cases hik : i < k
     · simp only [hik, if_true] at h
-      cases h3 : setAt phi i (a - halfPi) with
+      cases h3 : setAt phi i (P.add a (P.neg P.halfPi)) with
       | error e => simp [h3] at h
       | ok p => simp [h3, pure, Except.pure] at h; subst h; rfl
     · simp only [hik, if_false] at h
-      cases h3 : setAt phi i (a + halfPi + 2 * halfPi) with
+      cases h3 : setAt phi i (P.add (P.add a P.halfPi) (P.add P.halfPi P.halfPi)) with
       | error e => simp [h3] at h
       | ok p1 =>
         simp only [h3] at h
@@ -149,7 +149,7 @@ theorem two_qubit_phase_args (phi : List Int) (i k : Nat) (pars : List Par) (a b
         | error e => simp [h4] at h
         | ok pk =>
           simp only [h4] at h
-          cases h5 : setAt p1 k (pk + halfPi) with
+          cases h5 : setAt p1 k (P.add pk P.halfPi) with
           | error e => simp [h5] at h
           | ok p2 => simp [h5, pure, Except.pure] at h; subst h; rfl
   · intro r h
@@ -158,9 +158,9 @@ theorem two_qubit_phase_args (phi : List Int) (i k : Nat) (pars : List Par) (a b
     by_cases hik : i < k <;> simp [hik, pure, Except.pure] at h <;> subst h <;> simp [hik]
 
 /-- one-qubit pulses get minus the current phase of their own row; idle and readout gates get none -/
-theorem one_qubit_phase_arg (m : String) (phi : List Int) (i : Nat) (pars : List Par) (g : GateCall) :
-    (oneQCall m phi i pars true = .ok g → ∃ a, getAt phi i = .ok a ∧ g = ⟨m, [-a], pars⟩) ∧
-    (oneQCall m phi i pars false = .ok g → g = ⟨m, [], pars⟩) := by
+theorem one_qubit_phase_arg {Φ : Type} (P : PhaseOps Φ) (m : String) (phi : List Φ) (i : Nat) (pars : List Par) (g : GateCall Φ) :
+    (oneQCall P m phi i pars true = .ok g → ∃ a, getAt phi i = .ok a ∧ g = ⟨m, [P.neg a], pars⟩) ∧
+    (oneQCall P m phi i pars false = .ok g → g = ⟨m, [], pars⟩) := by
   constructor
   · intro h
     unfold oneQCall at h
@@ -173,7 +173,7 @@ theorem one_qubit_phase_arg (m : String) (phi : List Int) (i : Nat) (pars : List
 /-! ## the simulator passes each operation the calibration values of its own physical qubits -/
 
 /-- index-based branch: the physical label indexes the device tables, the position in the layout the circuit -/
-theorem binary_calls_own (layout : List Nat) (op : Op) (cs : List CircCall)
+theorem binary_calls_own {Φ : Type} (layout : List Nat) (op : Op Φ) (cs : List (CircCall Φ))
     (h : callsBinaryOp layout op = .ok cs) :
     match op with
     | .sx q => ∃ v, indexE layout q = .ok v ∧ cs = [.SX v [.p q, .T1 q, .T2 q]]
@@ -224,19 +224,19 @@ theorem binary_calls_own (layout : List Nat) (op : Op) (cs : List CircCall)
   | measure q c => simp [callsBinaryOp, pure, Except.pure] at h ⊢; exact h
 
 /-- the final readout bit-flips: position `k` of the layout gets `tm, rout` of the physical qubit there -/
-theorem binary_bitflips_own (n : Nat) (layout : List Nat) (data : List Op) (cs : List CircCall)
+theorem binary_bitflips_own {Φ : Type} (n : Nat) (layout : List Nat) (data : List (Op Φ)) (cs : List (CircCall Φ))
     (h : callsBinary n layout data = .ok cs) (k : Nat) (hk : k < n) :
     ∃ q, layout[k]? = some q ∧ CircCall.bitflip k [.tm q, .rout q] ∈ cs := by
   unfold callsBinary at h
   cases hb : concatE (data.map (callsBinaryOp layout)) with
   | error e => simp [hb, bind, Except.bind] at h
   | ok body =>
-    cases hf : flipCalls n layout with
+    cases hf : flipCalls (Φ := Φ) n layout with
     | error e => simp [hb, hf, bind, Except.bind] at h
     | ok flips =>
       simp [hb, hf, bind, Except.bind, pure, Except.pure] at h
       subst h
-      have key : ∀ (l : List Nat) (out : List CircCall), concatE (l.map (flipCall layout)) = .ok out →
+      have key : ∀ (l : List Nat) (out : List (CircCall Φ)), concatE (l.map (flipCall layout)) = .ok out →
           ∀ k ∈ l, ∃ q, layout[k]? = some q ∧ CircCall.bitflip k [.tm q, .rout q] ∈ out := by
         intro l
         induction l with
@@ -244,11 +244,11 @@ theorem binary_bitflips_own (n : Nat) (layout : List Nat) (data : List Op) (cs :
         | cons x xs ih =>
           intro out ho k hk
           simp only [List.map_cons, concatE, bind, Except.bind] at ho
-          cases hx : flipCall layout x with
+          cases hx : flipCall (Φ := Φ) layout x with
           | error e => simp [hx] at ho
           | ok fx =>
             simp only [hx] at ho
-            cases hr : concatE (xs.map (flipCall layout)) with
+            cases hr : concatE (xs.map (flipCall (Φ := Φ) layout)) with
             | error e => simp [hr] at ho
             | ok rest =>
               simp [hr, pure, Except.pure] at ho
@@ -264,61 +264,64 @@ theorem binary_bitflips_own (n : Nat) (layout : List Nat) (data : List Op) (cs :
       exact ⟨q, h1, List.mem_append_right _ h2⟩
 
 /-- layered branch: the physical label is the row, and the row's own table entries are passed -/
-theorem layered_calls_own (n : Nat) (c t : Nat) (hc : c < n) :
-    CircCall.CNOT c t (twoQubitPars c t) ∈ callsLayeredOp n (.cx c t) ∧
-    CircCall.ECR c t (twoQubitPars c t) ∈ callsLayeredOp n (.ecr c t) ∧
-    CircCall.SX c [.p c, .T1 c, .T2 c] ∈ callsLayeredOp n (.sx c) ∧
-    CircCall.X c [.p c, .T1 c, .T2 c] ∈ callsLayeredOp n (.x c) := by
+theorem layered_calls_own {Φ : Type} (n : Nat) (c t : Nat) (hc : c < n) :
+    (CircCall.CNOT c t (twoQubitPars c t) : CircCall Φ) ∈ callsLayeredOp n (.cx c t) ∧
+    (CircCall.ECR c t (twoQubitPars c t) : CircCall Φ) ∈ callsLayeredOp n (.ecr c t) ∧
+    (CircCall.SX c [.p c, .T1 c, .T2 c] : CircCall Φ) ∈ callsLayeredOp n (.sx c) ∧
+    (CircCall.X c [.p c, .T1 c, .T2 c] : CircCall Φ) ∈ callsLayeredOp n (.x c) := by
   refine ⟨?_, ?_, ?_, ?_⟩ <;>
     simp only [callsLayeredOp, layerLoop, List.mem_flatMap, List.mem_range] <;>
     exact ⟨c, hc, by simp⟩
 
 /-- a layer of the layered branch is complete: every operation issues exactly `n` gate units
 (the two-qubit gate counts two, the target row is skipped) -/
-theorem layered_layer_complete (n q : Nat) (hq : q < n) :
-    (callsLayeredOp n (.sx q)).length = n ∧ (callsLayeredOp n (.x q)).length = n := by
-  constructor <;>
-  · simp only [callsLayeredOp, layerLoop, List.length_flatMap]
-    have : ∀ k, (match (if k = q then some [CircCall.SX k [.p k, .T1 k, .T2 q]] else none) with
-        | some cs => cs | none => [CircCall.I k]).length = 1 := by intro k; split_ifs <;> rfl
-    first
-      | (rw [List.map_congr_left (g := fun _ => 1) (fun k _ => by split_ifs <;> rfl)]; simp)
+theorem layered_layer_complete {Φ : Type} (n q : Nat) (hq : q < n) :
+    (callsLayeredOp (Φ := Φ) n (.sx q)).length = n ∧ (callsLayeredOp (Φ := Φ) n (.x q)).length = n := by
+  have key : ∀ (f : Nat → Option (List (CircCall Φ))), (∀ k, (f k = none) ∨ ∃ c, f k = some [c]) →
+      (layerLoop n f).length = n := by
+    intro f hf
+    unfold layerLoop
+    rw [List.length_flatMap, List.map_congr_left (g := fun _ => 1)]
+    · simp
+    · intro k _
+      rcases hf k with h | ⟨c, h⟩ <;> simp [h]
+  constructor
+  · exact key _ (fun k => by by_cases h : k = q <;> simp [h])
+  · exact key _ (fun k => by by_cases h : k = q <;> simp [h])
 
 /-! ## tensor slots -/
 
 /-- index-based class: a two-qubit matrix is registered on `(lower row, higher row)` — slot 0 on the lower row —
-under the token of the call that sampled it -/
-theorem binary_two_qubit_slots (st st' : BinState) (i k : Nat) (pars : List Par) :
-    (st.step (.CNOT i k pars) = .ok st' ∨ st.step (.ECR i k pars) = .ok st') →
-    st'.items.head? = some (st.calls.length, min i k, ((max i k : Nat) : Int)) ∨ (i = k) := by
-  intro h
-  by_cases hik : i < k
-  · left
-    rcases h with h | h <;>
-    · simp only [BinState.step, bind, Except.bind] at h
-      first
-        | (cases ht : twoQCNOT st.phi i k pars with
-           | error e => simp [ht] at h
-           | ok t => simp [ht, pure, Except.pure, hik] at h; subst h
-                     simp [Nat.min_eq_left hik.le, Nat.max_eq_right hik.le])
-        | (cases ht : twoQECR st.phi i k pars with
-           | error e => simp [ht] at h
-           | ok t => simp [ht, pure, Except.pure, hik] at h; subst h
-                     simp [Nat.min_eq_left hik.le, Nat.max_eq_right hik.le])
-  · by_cases hki : k < i
-    · left
-      rcases h with h | h <;>
-      · simp only [BinState.step, bind, Except.bind] at h
-        first
-          | (cases ht : twoQCNOT st.phi i k pars with
-             | error e => simp [ht] at h
-             | ok t => simp [ht, pure, Except.pure, hik] at h; subst h
-                       simp [Nat.min_eq_right hki.le, Nat.max_eq_left hki.le])
-          | (cases ht : twoQECR st.phi i k pars with
-             | error e => simp [ht] at h
-             | ok t => simp [ht, pure, Except.pure, hik] at h; subst h
-                       simp [Nat.min_eq_right hki.le, Nat.max_eq_left hki.le])
-    · right; omega
+together with the call that sampled it -/
+theorem binary_two_qubit_slots {Φ : Type} (P : PhaseOps Φ) (st st' : BinState Φ) (i k : Nat) (pars : List Par)
+    (hne : i ≠ k) :
+    (st.step P (.CNOT i k pars) = .ok st' → ∃ t, twoQCNOT P st.phi i k pars = .ok t ∧
+        st'.items = ⟨some t.call, min i k, ((max i k : Nat) : Int)⟩ :: st.items ∧ st'.phi = t.phi) ∧
+    (st.step P (.ECR i k pars) = .ok st' → ∃ t, twoQECR st.phi i k pars = .ok t ∧
+        st'.items = ⟨some t.call, min i k, ((max i k : Nat) : Int)⟩ :: st.items ∧ st'.phi = t.phi) := by
+  constructor
+  · intro h
+    simp only [BinState.step, bind, Except.bind] at h
+    cases ht : twoQCNOT P st.phi i k pars with
+    | error e => simp [ht] at h
+    | ok t =>
+      simp [ht, pure, Except.pure] at h; subst h
+      refine ⟨t, rfl, ?_, rfl⟩
+      by_cases hik : i < k
+      · simp [hik, Nat.min_eq_left hik.le, Nat.max_eq_right hik.le]
+      · have hki : k < i := by omega
+        simp [hik, Nat.min_eq_right hki.le, Nat.max_eq_left hki.le]
+  · intro h
+    simp only [BinState.step, bind, Except.bind] at h
+    cases ht : twoQECR st.phi i k pars with
+    | error e => simp [ht] at h
+    | ok t =>
+      simp [ht, pure, Except.pure] at h; subst h
+      refine ⟨t, rfl, ?_, rfl⟩
+      by_cases hik : i < k
+      · simp [hik, Nat.min_eq_left hik.le, Nat.max_eq_right hik.le]
+      · have hki : k < i := by omega
+        simp [hik, Nat.min_eq_right hki.le, Nat.max_eq_left hki.le]
 
 /-! ## relabelling -/
 
@@ -326,12 +329,12 @@ def relabelPar (π : Nat → Nat) : Par → Par
   | .T1 q => .T1 (π q) | .T2 q => .T2 (π q) | .p q => .p (π q) | .rout q => .rout (π q) | .tm q => .tm (π q)
   | .pint c t => .pint (π c) (π t) | .tint c t => .tint (π c) (π t) | .durDt d => .durDt d
 
-def relabelOp (π : Nat → Nat) : Op → Op
+def relabelOp {Φ : Type} (π : Nat → Nat) : Op Φ → Op Φ
   | .rz q th => .rz (π q) th | .sx q => .sx (π q) | .x q => .x (π q)
   | .cx c t => .cx (π c) (π t) | .ecr c t => .ecr (π c) (π t)
   | .delay q d => .delay (π q) d | .barrier qs => .barrier (qs.map π) | .measure q c => .measure (π q) c
 
-def relabelCall (π : Nat → Nat) : CircCall → CircCall
+def relabelCall {Φ : Type} (π : Nat → Nat) : CircCall Φ → CircCall Φ
   | .Rz i th => .Rz i th | .I i => .I i
   | .X i ps => .X i (ps.map (relabelPar π)) | .SX i ps => .SX i (ps.map (relabelPar π))
   | .CNOT i k ps => .CNOT i k (ps.map (relabelPar π)) | .ECR i k ps => .ECR i k (ps.map (relabelPar π))
@@ -356,7 +359,7 @@ private theorem indexE_map (π : Nat → Nat) (hinj : Function.Injective π) (l 
 /-- **relabelling the physical qubits together with their calibration data**: for an injective relabelling the
 calls issued for one operation are the same calls on the same rows with every calibration token relabelled — the
 circuit object is driven identically, only the table entries are looked up under the new labels -/
-theorem relabel_calls (π : Nat → Nat) (hinj : Function.Injective π) (layout : List Nat) (op : Op) :
+theorem relabel_calls {Φ : Type} (π : Nat → Nat) (hinj : Function.Injective π) (layout : List Nat) (op : Op Φ) :
     callsBinaryOp (layout.map π) (relabelOp π op) = (callsBinaryOp layout op).map (List.map (relabelCall π)) := by
   cases op with
   | rz q th =>
@@ -381,10 +384,10 @@ theorem relabel_calls (π : Nat → Nat) (hinj : Function.Injective π) (layout 
   | measure q c => simp [callsBinaryOp, relabelOp, pure, Except.pure, Except.map]
 
 /-! non-vacuity: the reversed gates on a scattered layout -/
-example : callsBinaryOp [2, 5, 9] (.ecr 9 2) = .ok [.ECR 2 0 (twoQubitPars 9 2)] := by decide
-example : (twoQECR [0, 10, 20] 2 0 (twoQubitPars 9 2)).map (·.call) =
+example : callsBinaryOp (Φ := Int) [2, 5, 9] (.ecr 9 2) = .ok [.ECR 2 0 (twoQubitPars 9 2)] := by decide
+example : (twoQECR (Φ := Int) [0, 10, 20] 2 0 (twoQubitPars 9 2)).map (·.call) =
     .ok ⟨"ECR_inv", [0, 20], [.tint 9 2, .pint 9 2, .p 2, .p 9, .T1 2, .T2 2, .T1 9, .T2 9]⟩ := by decide
-example : Own 2 9 9 2 ⟨"ECR_inv", [0, 20], [.tint 9 2, .pint 9 2, .p 2, .p 9, .T1 2, .T2 2, .T1 9, .T2 9]⟩ = true := by
+example : Own (Φ := Int) 2 9 9 2 ⟨"ECR_inv", [0, 20], [.tint 9 2, .pint 9 2, .p 2, .p 9, .T1 2, .T2 2, .T1 9, .T2 9]⟩ = true := by
   decide
 
 end QG.C08
